@@ -263,8 +263,9 @@ func (w *World) NumWallets() int          { return len(w.Wallets) }
 // ErrStuck is returned when a call into the code under test did not return in time.
 var ErrStuck = errors.New("sim: call did not return (stuck)")
 
-// CallTimeout bounds every call into the code under test.
-var CallTimeout = 60 * time.Second
+// CallTimeout is the watchdog period of every call into the code under test. An expiry is not a verdict: GuardT then
+// consults the goroutine profile (ConfirmStuck) and keeps waiting while the node is seen making progress.
+var CallTimeout = 30 * time.Second
 
 // guard runs f under recover with a watchdog.
 func guard(f func() error) (err error) { return GuardT(CallTimeout, f) }
@@ -282,12 +283,18 @@ func GuardT(timeout time.Duration, f func() error) (err error) {
 		}()
 		done <- f()
 	}()
-	select {
-	case e := <-done:
-		return e
-	case <-time.After(timeout):
-		return ErrStuck
+	for period := 0; period < 4; period++ {
+		select {
+		case e := <-done:
+			return e
+		case <-time.After(timeout):
+		}
+		if ok, _ := ConfirmStuck(3, 300*time.Millisecond); ok {
+			return ErrStuck
+		}
+		// slow, not parked (machine load, collector pressure): give it more time
 	}
+	return ErrStuck
 }
 
 func IsPanic(err error) bool { return err != nil && strings.HasPrefix(err.Error(), "PANIC:") }
